@@ -28,7 +28,8 @@ Definition p_read_bytes_at (off size : N) : prog bytes :=
 
 (* ------------------------------------------------------------------ ReadSuperblock (internal/core/superblock.go:43) *)
 
-(* the decoding of the 128-byte buffer buf of which n bytes were read: the body of CodecSuper.dec_superblock *)
+(* the decoding of the 128-byte buffer buf of which n bytes were read: the body of CodecSuper.dec_superblock
+   (= dec_superblock_gen true, the code with notes/fixes/c06-superblock-sizes.patch; Proofs/IOProgReader.v dec_superblock_is_dec_sb_buf) *)
 Definition dec_sb_buf (buf : bytes) (n : N) : outcome superblock' :=
   if n <? 48 then Err else                                   (* superblock.go:51 *)
   sig <- slice buf 0 8;;
@@ -42,6 +43,7 @@ Definition dec_sb_buf (buf : bytes) (n : N) : outcome superblock' :=
      else
        b9 <- index buf 9;;
        sizesByte <- index buf 10;;
+       if spec_size b9 && spec_size sizesByte then Ok (false, b9, sizesByte) else   (* since notes/fixes/c06-superblock-sizes.patch *)
        let be := N.testbit b9 0 in
        if valid_size sizesByte then Ok (be, sizesByte, 8)
        else
@@ -57,9 +59,9 @@ Definition dec_sb_buf (buf : bytes) (n : N) : outcome superblock' :=
   let lengthSize := if lengthSize =? 0 then 8 else lengthSize in
   if negb (valid_size offsetSize && valid_size lengthSize) then Err else
   if version =? 0 then
-    root <- read_value buf 64 offsetSize bigendian;;
-    bt <- read_value buf 80 offsetSize bigendian;;
-    hp <- read_value buf 88 offsetSize bigendian;;
+    root <- read_value buf (24 + 4 * offsetSize + offsetSize) offsetSize bigendian;;           (* 64, 80, 88 for 8-byte offsets *)
+    bt <- read_value buf (24 + 4 * offsetSize + 2 * offsetSize + 8) offsetSize bigendian;;
+    hp <- read_value buf (24 + 4 * offsetSize + 2 * offsetSize + 8 + offsetSize) offsetSize bigendian;;
     Ok {| spp_version := version; spp_offsize := offsetSize; spp_lensize := lengthSize;
           spp_bigendian := bigendian; spp_base := 0; spp_root := root; spp_superext := 0;
           spp_driverinfo := 0; spp_rootbtree := bt; spp_rootheap := hp |}
